@@ -10,6 +10,7 @@ import (
 
 	"golang.org/x/tools/go/ssa"
 
+	"verif/engine/solver"
 	"verif/engine/sym"
 )
 
@@ -211,7 +212,10 @@ func (m *Machine) fmtVal(fr *frame, pos token.Pos, verb byte, t types.Type, v Va
 			}
 		}
 		if !v.IsConst() && v.Sort.K == sym.KBV && (verb == 'd' || verb == 'v') {
-			return m.fmtSymInt(v, isSigned(t)), true
+			// exact single-digit rendering only when the value is provably in [0,9]; otherwise the text is opaque
+			if m.feasible(m.F.Not(m.F.Bin(sym.OULT, v, m.F.Const(v.Sort, 10)))) == solver.Unsat {
+				return m.fmtSymInt(v, isSigned(t)), true
+			}
 		}
 		return Str{}, false
 	case *FloatV:
